@@ -140,6 +140,8 @@ def gen_cases(rng, n, quick):
 
 
 def main():
+    import astlib
+    astlib.AUTO_FUNCS = 0.2       # sqrt exp ln log pow at exact points in a fifth of the generated formulas
     rep = core.Report("C05")
     quick = core.tier() == "quick"
     rng = random.Random(core.seed() * 7919 + 5)
